@@ -2,7 +2,7 @@
 # seedtest.sh <ID> [tier]: verify a seeded change delivered in /tmp/seed/<ID>/_seed in its scratch worktree
 # (suite passes with it, demo fails with it / passes without), copy it to /verif/seeded/<ID>/, then apply it to
 # /repo, run the property's check, and undo. Prints one summary line.
-id=$1; tier=${2:-quick}; round=${3:-}
+id=$1; tier=${2:-quick}; round=${3:-}; cid=${4:-$id}   # cid: property whose check is run (default: the directory name)
 # round "" : worktree /tmp/seed/<ID>, kept as /verif/seeded/<ID>; round "2": /tmp/seed2/<ID>, /verif/seeded/<ID>-2
 root=/tmp/seed$round; out=/verif/seeded/$id${round:+-$round}
 wt=$root/$id; sd=$wt/_seed
@@ -34,11 +34,11 @@ cp $sd/patch.diff $out/patch.diff; cp "$demo" $out/demo/; echo "package director
 cd /verif
 if [ -n "$SEED_INPLACE" ]; then
   git -C /repo apply $out/patch.diff || { echo "$id: patch does not apply to /repo"; exit 2; }
-  res=$(./vcheck $id --tier $tier 2>&1); rc=$?
+  res=$(./vcheck $cid --tier $tier 2>&1); rc=$?
   git -C /repo checkout -- .
-  rm -f /verif/replays/$id/[0-9a-f]*.json
+  rm -f /verif/replays/$cid/[0-9a-f]*.json
 else
-  res=$(VERIF_REPO=$wt ./vcheck $id --tier $tier 2>&1); rc=$?
+  res=$(VERIF_REPO=$wt ./vcheck $cid --tier $tier 2>&1); rc=$?
 fi
 nviol=$(echo "$res" | grep -c "^VIOLATION")
 first=$(echo "$res" | grep "^violation detail" | head -1 | cut -c1-260)
